@@ -426,7 +426,14 @@ pub fn gen(prop: &str, r: &mut Rng) -> Vec<String> {
             if r.chance(1, 8) { text.push_str(" extra"); }
             if r.chance(1, 20) { text.push_str(*r.pick(&["\n", "\r\n", " \n", "\x0c"])); }
             // the blank after the type keyword removed (only where the data starts with a quote or a colon)
-            if r.chance(1, 15) { for k in ["TXT ", "txt ", "AAAA ", "aaaa "] { if let Some(i) = text.find(k) { let j = i + k.len(); let rest = text[j..].trim_start().to_string(); if rest.starts_with('"') || rest.starts_with(':') { text = format!("{}{}", &text[..j - 1], rest); } break; } } }
+            if r.chance(1, 10) {
+                let b = text.as_bytes();
+                let want = if ttl.is_empty() { 3 } else { 4 };
+                let mut p = 0; let mut seen = 0;
+                while p < b.len() && seen < want { while p < b.len() && (b[p] == b' ' || b[p] == b'\t') { p += 1; } while p < b.len() && b[p] != b' ' && b[p] != b'\t' { p += 1; } seen += 1; }
+                let mut q = p; while q < b.len() && (b[q] == b' ' || b[q] == b'\t') { q += 1; }
+                if seen == want && q > p && q < b.len() && (b[q] == b'"' || b[q] == b':') && text.is_char_boundary(p) && text.is_char_boundary(q) { text.replace_range(p..q, ""); }
+            }
             vec!["c13".into(), "text".into(), hex(text.as_bytes())]
         }
     }
